@@ -260,7 +260,7 @@ func monC17(c *drv.Ctx) {
 		})
 	}
 	// (2) mutated encodings classified by the oracle
-	c.Stage("mutants", c.Pick(40000, 3000000), false, func(cs *drv.Case) {
+	c.Stage("mutants", c.Pick(300000, 5000000), false, func(cs *drv.Case) {
 		r := cs.R
 		t := ref.KnownTypes[r.Intn(len(ref.KnownTypes))]
 		v := gen.Tree(r, t, gen.TreeOpts{MaxDepth: 1 + r.Intn(4), MaxElems: 4}, 0)
@@ -318,7 +318,7 @@ func monC17(c *drv.Ctx) {
 		cs.Count(true, "deep", cs.Idx)
 	})
 	// (5) stream reader: every cut position x every injected error value
-	c.Stage("source-errors", c.Pick(3000, 200000), false, func(cs *drv.Case) {
+	c.Stage("source-errors", c.Pick(20000, 300000), false, func(cs *drv.Case) {
 		r := cs.R
 		n := 1 + r.Intn(6)
 		vals := make([]cval, n)
